@@ -116,7 +116,7 @@ def random_spec(rng, shapes=None, strategy=None, plugins=None):
 
 STEP_WEIGHTS = {
     'add': 5, 'set': 8, 'set_same': 2, 'set_null': 2, 'del': 3, 'readd': 2, 'setrel': 3, 'link': 3, 'unlink': 2,
-    'flush': 5, 'commit': 5, 'rollback': 1, 'query': 1, 'expire': 0, 'expunge': 1, 'manual_tx': 0, 'sp_begin': 0, 'sp_commit': 0, 'sp_rollback': 0,
+    'flush': 5, 'commit': 5, 'rollback': 1, 'query': 1, 'expire': 0, 'expunge': 1, 'core_link': 1, 'manual_tx': 0, 'sp_begin': 0, 'sp_commit': 0, 'sp_rollback': 0,
 }
 
 
@@ -134,6 +134,9 @@ def random_program(rng, spec, nsteps, weights=None, nkeys=3, nvals=4, allow_clas
     deleted_uncommitted = set()
     committed_exists = {}
     committed_class_of = {}
+    tx_dirty = False              # something versioned was changed since the last flush
+    tx_versioned_flush = False    # a flush with versioned changes happened in this database transaction
+    core_linked = set()
     sp_open = [0]
     sp_stack = []
     sp_exists = [{}]
@@ -181,6 +184,7 @@ def random_program(rng, spec, nsteps, weights=None, nkeys=3, nvals=4, allow_clas
                 if rng.random() < 0.6:
                     attrs[a] = rng.randrange(nvals)
             prog.append(['add', cname, pk, attrs])
+            tx_dirty = True
             exists[(cname, tuple(pk))] = True
             for a, v in attrs.items():
                 shadow[(cname, tuple(pk), a)] = v
@@ -220,7 +224,7 @@ def random_program(rng, spec, nsteps, weights=None, nkeys=3, nvals=4, allow_clas
             rel, tgt = rng.choice(info[k[0]]['scalar_rels'])
             tk = existing(tgt) if rng.random() < 0.8 else None
             prog.append(['setrel', k[0], list(k[1]), rel, tgt, list(tk[1]) if tk else None])
-        elif kind in ('link', 'unlink'):
+        elif kind in ('link', 'unlink', 'core_link'):
             cands = [c for c in classes if info[c]['coll_rels']]
             if not cands:
                 continue
@@ -231,7 +235,23 @@ def random_program(rng, spec, nsteps, weights=None, nkeys=3, nvals=4, allow_clas
             tk = existing(tgt)
             if tk is None:
                 continue
+            if kind == 'core_link':
+                # a Core INSERT on the association table: only for many-to-many relationships and once per pair (the
+                # ORM collection does not know about the row); at any point of a transaction, also as its only statement
+                spec_rel = [r for c in spec['classes'] for r in (c.get('rels') or []) if r.get('secondary')]
+                pair = tuple(sorted([(k[0], tuple(k[1])), (tk[0], tuple(tk[1]))]))
+                if not spec_rel or pair in core_linked:
+                    continue
+                core_linked.add(pair)
+                if rng.random() < 0.5:
+                    prog.append(['flush'])
+                prog.append([kind, k[0], list(k[1]), rel, tk[0], list(tk[1]), rng.choice(['params', 'values'])])
+                tx_dirty = True
+                continue
+            if tuple(sorted([(k[0], tuple(k[1])), (tk[0], tuple(tk[1]))])) in core_linked:
+                continue        # the row is there already (Core statement), the ORM collection does not know
             prog.append([kind, k[0], list(k[1]), rel, tk[0], list(tk[1])])
+            tx_dirty = True
         elif kind == 'sp_begin':
             # savepoints nest up to two levels
             if sp_open[0] < (2 if SP_ANY else 1):
@@ -272,6 +292,12 @@ def random_program(rng, spec, nsteps, weights=None, nkeys=3, nvals=4, allow_clas
                     sp_open[0] -= 1
                 del sp_stack[:]
             prog.append([kind])
+            if kind in ('flush', 'commit') and tx_dirty:
+                tx_versioned_flush = True
+                tx_dirty = False
+            if kind in ('commit', 'rollback'):
+                tx_versioned_flush = False
+                tx_dirty = False
             if kind in ('flush', 'query'):
                 sp_flushed[0] = True
             if kind in ('flush', 'commit', 'rollback'):
@@ -296,3 +322,27 @@ def _is_sub(spec, sub, sup):
         if not c.get('parent'):
             return False
         c = envs.class_spec(spec, c['parent'])
+
+
+def core_sp_case(rng):
+    """Core statements on the association table around savepoints: executed before / inside a savepoint, flushed or
+    not before the savepoint ends, the savepoint released or rolled back, with or without a versioned flush before"""
+    spec = envs.shape_m2m({'strategy': rng.choice(['validity', 'subquery'])}, plugins=[])
+    spec['shape'] = 'm2m'
+    style = lambda: rng.choice(['params', 'values'])
+    prog = [['add', 'Article', [1], {'name': 1}], ['add', 'Tag', [1], {'name': 1}], ['add', 'Tag', [2], {'name': 1}],
+            ['add', 'Tag', [3], {'name': 1}], ['commit']]
+    if rng.random() < 0.7:
+        prog += [['set', 'Article', [1], 'name', 2], ['flush']]
+    if rng.random() < 0.5:
+        prog += [['core_link', 'Article', [1], 'tags', 'Tag', [3], style()]]
+    prog += [['sp_begin'], ['core_link', 'Article', [1], 'tags', 'Tag', [1], style()]]
+    if rng.random() < 0.4:
+        prog += [['set', 'Tag', [1], 'name', 2], ['flush']]
+    prog += [rng.choice([['sp_rollback'], ['sp_rollback'], ['sp_commit']])]
+    if rng.random() < 0.5:
+        prog += [['core_link', 'Article', [1], 'tags', 'Tag', [2], style()]]
+    if rng.random() < 0.6:
+        prog += [['set', 'Article', [1], 'name', 3]]
+    prog += [['commit'], ['set', 'Tag', [2], 'name', 3], ['commit']]
+    return {'spec': spec, 'autoflush': False, 'program': prog, 'family': 'core_statements_and_savepoints'}
